@@ -452,6 +452,14 @@ func c04Gen(t *rapid.T) C04Case {
 				lines[j].Typ = rapid.SampledFrom([]byte{1, 2}).Draw(t, "line-stream")
 			}
 		}
+		// A log driver that stamps its lines in the daemon host's zone: the same instants, another
+		// spelling; different containers may use different ones.
+		if rapid.IntRange(0, 3).Draw(t, "zoned-timestamps") == 0 {
+			zone := rapid.SampledFrom([]int{180, -330, 60, 765, -720}).Draw(t, "zone-min")
+			for j := range lines {
+				lines[j].ZoneMin = zone
+			}
+		}
 		// A long line arrives in chunks of 16 KiB, each a record of its own; the log may end with
 		// such a chunk (the container is still writing the line, or the range ends inside it).
 		if m > 0 && rapid.IntRange(0, 9).Draw(t, "chunk-of-a-long-line") == 0 {
